@@ -5,8 +5,10 @@ Part P (programs).  Space: every program of the bounded grammars of
 mc.engine.progen_c14 (A arithmetic chains, B comparison / logb refinements,
 L loops with static and symbolic trip counts, H helper calls, M literal sets,
 lists, selections) x a list of (caller context, argument formats)
-instantiations drawn from a small pool (two tiny IEEE formats, a NaN-for-minus-
-zero float format, signed / unsigned two's complement fixed point, INTEGER, REAL)
+instantiations drawn from a small pool (contexts: IEEE(2,4) RNE, IEEE(3,6) RTP, an
+unbounded 2-digit MPFloat, a float format whose NaN replaces -0, signed / unsigned
+two's complement fixed point with saturation, INTEGER, REAL; argument formats: the
+formats of those contexts plus IEEE(3,5))
 x ALL members of the pinned argument formats (INTEGER and REAL: a declared
 window) x loop_iter_limit in {1, 2, 10} for programs with a fixpoint loop.
 Each instantiation is analysed by the real `FormatInfer.analyze(ast, fn_fmt=...)`
@@ -22,7 +24,11 @@ mc.model.member_c14.member from the format's PUBLIC parameters only; a
 `SetFormat` must contain the value (sign of zero, infinities, NaN told apart);
 tuples / lists structurally.  `None` bounds and REAL_FORMAT claim nothing.
 Only the FIRST violating event of an execution is reported (later ones are its
-consequences); executions that raise are counted and not judged.
+consequences); executions that raise are counted and not judged.  The signature
+names the fact (by_expr / by_def / ret_fmt / round_is_identity), the node class,
+what the bound lacks (nan, +inf, -inf, -0, bound, digits, value, set:...), the kind
+of the active context and, at arithmetic sites, whether the analysis had claimed the
+rounding to be an identity (`path`).
 
 Oracle P2 (identity roundings): at every + - * neg abs round cast site whose
 `round_is_identity(exact image of the reported operand bounds, active context)`
@@ -1200,11 +1206,23 @@ class Check(BaseCheck):
         cells = pg.cells(prog, self.tier)
         for ci, cell in enumerate(cells):
             for sig, case, detail in self.run_cell(r, prog, mod, interp, cell, 'fn_fmt'):
-                r.violate(sig, case, detail)
+                self._violate(r, sig, case, detail)
             if ci == 0 and first_mono:
                 for sig, case, detail in self.run_cell(r, prog, mod, interp, cell, 'mono'):
-                    r.violate(sig, case, detail)
+                    self._violate(r, sig, case, detail)
         interp.reset()
+
+    def _violate(self, r: ShardResult, sig, case, detail):
+        # a class already kept three times in this shard is only counted (the runner keeps three per signature anyway)
+        seen = getattr(r, '_c14_seen', None)
+        if seen is None:
+            seen = r._c14_seen = Counter()
+        k = tuple(sorted((a, str(b)) for a, b in sig.items()))
+        seen[k] += 1
+        if seen[k] > 3:
+            r.count('violations_raw')
+        else:
+            r.violate(sig, case, detail)
 
     def run_programs(self, r: ShardResult, k: int, m: int):
         idx = 0
